@@ -160,7 +160,12 @@ class Parser:
             return v
         if k in ('ID', 'DOTID'):
             self.eat()
-            return ('id', self.resolve(v) if k == 'DOTID' else v)
+            name = self.resolve(v) if k == 'DOTID' else v
+            # constants are substituted where they are used, as the assembler's parser does (the width constants w / dw / dbit
+            # stay symbolic: the rules evaluate them per width)
+            if name in self.consts and name not in ('w', 'dw', 'dbit'):
+                return self.consts[name]
+            return ('id', name)
         if k == '$':
             self.eat()
             return ('id', '$')
@@ -313,6 +318,7 @@ class Stl:
             text = repo.src(rel)
             toks, comments = lex(text, rel)
             p = Parser(toks, comments, rel)
+            p.consts = self.consts           # one table for all files, in conf.json order (as in the assembler)
             p.top = p.block()
             if p.peek()[0] != 'EOF':
                 raise AnalysisError(f'{rel}:{p.peek()[2]}: trailing input {p.peek()[:2]}')
@@ -329,7 +335,6 @@ class Stl:
                     raise AnalysisError(f'{rel}:{m.line}: macro {key} defined twice')
                 self.macros[key] = m
             self.top += p.top
-            self.consts.update(p.consts)
         # cross-check the inventory with a textual scan of `def` lines
         n_defs = sum(1 for rel in self.files for ln in self.lines[rel] if re.match(r'\s*def\s+[A-Za-z_]', ln))
         if n_defs != len(self.macros):
